@@ -244,7 +244,7 @@ pub fn outl_replace_var(s: &String, name: &String, value: &String) -> (r: String
 pub open spec fn subst_all(s: Seq<char>, vars: Seq<(String, String)>) -> Seq<char>
     decreases vars.len()
 { if vars.len() == 0 { s } else { subst(subst_all(s, vars.drop_last()), vars.last().0@, vars.last().1@) } }
-pub struct StaticOrDynamic { pub vf_opaque: u8 }
+//@@ item src/marker/mod.rs :: enum StaticOrDynamic
 impl StaticOrDynamic {
     //@@ fn src/marker/mod.rs :: impl StaticOrDynamic / fn replace -> r
     //@| ensures r@ == subst_all(str@, variables@),
@@ -324,6 +324,13 @@ impl MarkerString {
     //@|     regex@ == fold_plain(e0, sorted.take(it.index@)), capture@ == fold_named(e0, e0, sorted.take(it.index@)),
     //@| loophead 0: let ghost k = it.index@ as int; proof { assert(*marker == sorted[k]); assert(sorted.take(k + 1).drop_last() =~= sorted.take(k)); assert(sorted.take(k + 1).last() == sorted[k]); }
     //@| loopend 0: proof { assert(sorted.take(sorted.len() as int) =~= sorted); }
+}
+impl StaticOrDynamic {
+    // C09 (rule side): the static form of a rule's path / host is the text itself, lower-cased exactly when case-insensitivity is configured —
+    // whether or not the rule declares markers (a rule whose markers do not occur in this text is static too); without markers the form is static
+    //@@ fn src/marker/mod.rs :: impl StaticOrDynamic / fn new_with_markers -> r
+    //@| ensures r matches StaticOrDynamic::Static(s) ==> s@ == (if ignore_case { lowerc(str@) } else { str@ }),
+    //@|     markers@.len() == 0 ==> r is Static,
 }
 //@@ unrename Marker
 
